@@ -219,6 +219,7 @@ impl Model {
                 match (object, app) {
                     (true, Some(app)) => {
                         // request surfaced with a fresh id; the id itself is chosen by the library
+                        let surfaced_app: Option<String> = obs.events.iter().find_map(|e| if let Ev::ConnectionRequested { app, .. } = e { Some(app.clone()) } else { None });
                         let id = match obs.events.iter().find_map(|e| if let Ev::ConnectionRequested { id, .. } = e { Some(*id) } else { None }) {
                             Some(id) => id,
                             None => {
@@ -231,7 +232,14 @@ impl Model {
                         if let Err(e) = self.fresh_id(id) {
                             return diverge("request-id-not-fresh", e);
                         }
-                        let napp = normalise_app(app);
+                        // "the accepted application name" is the one the session surfaces with the
+                        // request: how it tidies the requested name at its ends (a trailing slash
+                        // today) is its business, as long as it is the requested name otherwise
+                        let trim = |x: &str| x.trim().trim_matches('/').trim().to_string();
+                        let napp = match surfaced_app {
+                            Some(a) if trim(&a) == trim(app) => a,
+                            _ => normalise_app(app),
+                        };
                         want_events.push(Ev::ConnectionRequested { id, app: napp.clone() });
                         self.outstanding.insert(id, Req::Connect { app: napp, txid_bits: txid.to_bits() });
                     }
